@@ -7,7 +7,7 @@
    oracle of DrbgSpec.v.  RDRAND mixing (#ifdef CPUSUPPORT_X86_RDRAND) is outside the model: the
    property is observed on a build without it.
    Parametric in the HMAC implementation and in the constants of the C source ([drbg_params],
-   instantiated from Gen.Repo_dhdrbg).  Every entropy read, reseed and generate is also recorded
+   instantiated from Gen.Repo_dhdrbg).  Every instantiate, reseed and generate is also recorded
    in a ghost trace (list of [ev]) that the theorems about the schedule speak about.
    No proofs in this file. *)
 From Coq Require Import NArith List Bool.
@@ -59,10 +59,9 @@ Definition dstate0 : dstate := mk_dstate (repeat 0 32) (repeat 0 32) 0 false.
 
 (* ghost trace *)
 Inductive ev : Type :=
-| EvEntropy (n : nat) (ok : bool)     (* entropy_read(buf, n) was called and returned 0 / -1 *)
-| EvInstantiated                      (* instantiate() completed *)
-| EvReseeded                          (* reseed() completed *)
-| EvGenerate (n : N) (ctr : N).       (* generate(buf, n) entered with drbg.reseed_counter = ctr *)
+| EvInstantiate (len : nat) (ok : bool)          (* instantiate(): entropy_read(buf, len) returned 0 (ok) / -1 *)
+| EvReseed (len : nat) (ok : bool) (ctr : N)     (* reseed() entered with reseed_counter = ctr; its entropy_read *)
+| EvGenerate (n : N) (ctr : N).                  (* generate(buf, n) entered with reseed_counter = ctr *)
 
 Section Model.
   Variable P : drbg_params.
@@ -94,20 +93,20 @@ Section Model.
   (* instantiate(): (ok, state, rest of the oracle, trace) *)
   Definition instantiate_m (st : dstate) (o : oracle) : bool * dstate * oracle * list ev :=
     match get_entropy (d_seed_inst P) o with
-    | (None, o1) => (false, st, o1, [EvEntropy (d_seed_inst P) false])
+    | (None, o1) => (false, st, o1, [EvInstantiate (d_seed_inst P) false])
     | (Some seed, o1) =>
       let st1 := mk_dstate (repeat (d_key_init P) 32) (repeat (d_v_init P) 32) (d_ctr_init P) (dinst st) in
-      (true, update_m st1 seed, o1, [EvEntropy (d_seed_inst P) true; EvInstantiated])
+      (true, update_m st1 seed, o1, [EvInstantiate (d_seed_inst P) true])
     end.
 
   (* reseed() *)
   Definition reseed_m (st : dstate) (o : oracle) : bool * dstate * oracle * list ev :=
     match get_entropy (d_seed_reseed P) o with
-    | (None, o1) => (false, st, o1, [EvEntropy (d_seed_reseed P) false])
+    | (None, o1) => (false, st, o1, [EvReseed (d_seed_reseed P) false (dctr st)])
     | (Some seed, o1) =>
       let st1 := update_m st seed in
       (true, mk_dstate (dKey st1) (dV st1) (d_ctr_reset P) (dinst st1), o1,
-       [EvEntropy (d_seed_reseed P) true; EvReseeded])
+       [EvReseed (d_seed_reseed P) true (dctr st)])
     end.
 
   (* for (bufpos = 0; bufpos < buflen; bufpos += 32) { V = HMAC(Key, V); copy min(32, rest) } *)
